@@ -182,6 +182,9 @@ func c01GenSQL(rt *rapid.T) c01SQLCase {
 		if rapid.Bool().Draw(rt, "single") {
 			pool = []int{rapid.IntRange(1, 4).Draw(rt, "the")}
 		}
+		if rapid.Bool().Draw(rt, "oneentry") { // a miscounting entry point must not be diluted by the others
+			entries = []string{rapid.SampledFrom(entries).Draw(rt, "theentry")}
+		}
 		for i := 0; i < n; i++ {
 			c.Ops = append(c.Ops, c01SQLOp{rapid.SampledFrom(entries).Draw(rt, "e"), rapid.SampledFrom(pool).Draw(rt, "o")})
 		}
